@@ -79,6 +79,9 @@ class Sim(object):
         self.escaped = []
         self.failed_cids = {}
         self.zombies = set()
+        self.inc_at_leader = {}
+        self.confs = {}
+        self.quiet = False
         self.heard = collections.defaultdict(dict)
         self.leader_now = {}
         self.notified = collections.defaultdict(set)
@@ -165,7 +168,12 @@ class Sim(object):
             others = [self.addr[v] for v in self.voters if v != name]
         self_addr = None if self.is_ro(name) else self.addr[name]
         self.incarnation[name] += 1
-        obj = self.probe_class(self_addr, others, self.make_conf(name), self, name)
+        conf = self.make_conf(name)
+        self.confs[name] = conf
+        if self.quiet:
+            conf.logCompactionMinEntries = 10 ** 9
+            conf.logCompactionMinTime = 10.0 ** 9
+        obj = self.probe_class(self_addr, others, conf, self, name)
         self.nodes[name] = obj
         if self.idname is None:
             self.idname = {}
@@ -245,6 +253,15 @@ class Sim(object):
                 self.pending_old_ae.append((to, frm, message['term'], self.max_term[to]))
         for h in self.on_deliver_hooks:
             h(frm, to, gen, message)
+
+    def quiet_config(self):
+        """Quiet phase: no further automatic compactions. With the generated extreme settings (compaction every
+        50 ms, 1-byte snapshot chunks) a leader would restart every snapshot transfer before it can finish, and a
+        snapshot install skips callbacks - artefacts of the configuration, not of the history being checked."""
+        self.quiet = True
+        for conf in self.confs.values():
+            conf.logCompactionMinEntries = 10 ** 9
+            conf.logCompactionMinTime = 10.0 ** 9
 
     def stop_node(self, name, clean=True):
         """Process `name` goes away (clean shutdown or kill); its connections die."""
@@ -452,6 +469,8 @@ class Sim(object):
         for name in self.live():
             self.tick_node(name, dt)
         self.drain()
+        # monitors after every round: a commit index has to be seen while the entry is still in that node's log
+        self.check(light=True)
 
     def op_calm(self, a, b, c):
         rounds = [1, 3, 10, 40][a % 4]
@@ -478,6 +497,88 @@ class Sim(object):
                 keep = lambda q, v: [0, len(q)][v % 2]
                 self.net.break_(g, keep(g.q[g.a], b), keep(g.q[g.b], c))
         return (sorted(side),)
+
+    def set_partition(self, side, drop=True):
+        names = self.voters + self.ro
+        side = set(side)
+        self.blocked = set()
+        for x in names:
+            for y in names:
+                if x < y and ((x in side) != (y in side)):
+                    self.blocked.add(frozenset((x, y)))
+        for g in self.net.gens:
+            if g.alive and frozenset((g.a, g.b)) in self.blocked:
+                self.net.break_(g, 0 if drop else len(g.q[g.a]), 0 if drop else len(g.q[g.b]))
+
+    def rounds_until(self, cond, limit):
+        for _ in range(limit):
+            if cond():
+                return True
+            self.calm_round()
+            self.check(light=True)
+            if self.viol:
+                return False
+        return cond()
+
+    def op_churn(self, a, b, c):
+        """Leader churn with divergent log tails (parameterised macro step): the leader L is cut off (alone or with
+        one follower F) and keeps accepting x commands; the rest elects L2 and commits y commands; then the cluster
+        is re-partitioned in one of four ways. Reaches deposed-leader / stale-acknowledgement / old-term-entry states
+        that single random steps reach only rarely."""
+        voters = [v for v in self.voters if v in self.nodes]
+        n = len(voters)
+        if n < 3:
+            return False
+        leaders = lambda grp: [v for v in grp if v in self.nodes and self.nodes[v]._isLeader()]
+        if not leaders(voters):
+            self.blocked = set()
+            if not self.rounds_until(lambda: len(leaders(voters)) == 1, 200):
+                return False
+        L = leaders(voters)[0]
+        others = [v for v in voters if v != L]
+        side = {L}
+        F = None
+        if (b & 1) and (n - 2) * 2 > n:
+            F = others[a % len(others)]
+            side.add(F)
+        rest = [v for v in voters if v not in side]
+        self.set_partition(side)
+        x = 1 + c % 3
+        for _ in range(x):
+            self.submit(L, self.payload(1, self.next_cid))
+            self.tick_node(L, 0.11)
+            self.drain(passes=2)
+            self.check(light=True)
+        if not self.rounds_until(lambda: len(leaders(rest)) == 1, 250) or self.viol:
+            return (L, F, 'no-new-leader')
+        L2 = leaders(rest)[0]
+        y = (c // 3) % 3
+        for _ in range(y):
+            self.submit(L2, self.payload(1, self.next_cid))
+            for _ in range(3):
+                self.calm_round()
+                self.check(light=True)      # every round: a commit index must be observed while the entry is still in the log
+        variant = (b >> 1) % 4
+        if variant == 0:
+            self.blocked = set()
+        elif variant == 1:
+            self.set_partition({L2})
+        elif variant == 2:
+            cand = [v for v in rest if v != L2]
+            V = cand[a % len(cand)] if cand else L2
+            self.set_partition(side | {V})
+        else:
+            if F is not None:
+                self.set_partition({F})
+            else:
+                self.blocked = set()
+        for _ in range(30):
+            self.calm_round()
+            self.check(light=True)
+            if self.viol:
+                break
+        self.counters['churn_completed'] += 1
+        return (L, F, L2, x, y, variant)
 
     def op_heal(self, a, b, c):
         if not self.blocked:
@@ -670,6 +771,8 @@ class Sim(object):
         # committed entries stay on a majority (what makes 'no later leader can lack it' true)
         if self.G and ('C04', 'committed-entry-left-majority') not in self.fired:
             self.check_committed_stay()
+        if ('C04', 'match-index-not-backed-by-follower') not in self.fired:
+            self.check_match_index()
         # applied index, apply events
         for name in self.live():
             obj = self.nodes[name]
@@ -775,6 +878,41 @@ class Sim(object):
                     if self.cid_positions.get(cid):
                         self.V('C02', 'applied-after-definite-failure:%s' % FR[err],
                                'command cid %d was reported %s to its submitter but is committed at position %r' % (cid, FR[err], sorted(self.cid_positions[cid])))
+
+    def check_match_index(self):
+        """What the leader of the highest term counts as acknowledged by a follower (its matchIndex) must be in that
+        follower's log (or covered by its snapshot): acknowledgements are what commit decisions are made of."""
+        live = [n for n in self.live() if not self.is_ro(n)]
+        if not live:
+            return
+        top = max(self.nodes[n].raftCurrentTerm for n in live)
+        for name in live:
+            obj = self.nodes[name]
+            if not obj._isLeader() or obj.raftCurrentTerm != top:
+                continue
+            try:
+                match = dict(obj._SyncObj__raftMatchIndex)
+            except AttributeError:
+                return
+            for node, m in match.items():
+                v = self.addr2name.get(getattr(node, 'address', None))
+                if v is None or v not in self.nodes or m <= 1 or self.incarnation[v] != self.inc_at_leader.get((name, v), self.incarnation[v]):
+                    continue
+                mine = entry_at(obj, m)
+                if mine is None:
+                    continue
+                theirs = entry_at(self.nodes[v], m)
+                if theirs is not None:
+                    ok = theirs[2] == mine[2]
+                else:
+                    log = log_of(self.nodes[v])
+                    ok = len(log) > 0 and log[0][1] > m and self.nodes[v].raftLastApplied >= m
+                if not ok:
+                    self.V('C04', 'match-index-not-backed-by-follower',
+                           'leader %s (term %d) counts position %d (term %d) as acknowledged by %s, whose log holds %r there (log %r..%r)' % (
+                               name, top, m, mine[2], v, None if theirs is None else theirs[2],
+                               log_of(self.nodes[v])[0][1] if len(log_of(self.nodes[v])) else None, log_of(self.nodes[v])[-1][1] if len(log_of(self.nodes[v])) else None))
+                    return
 
     def check_committed_stay(self):
         mem = self.member_set(None)
